@@ -29,7 +29,8 @@ pub enum SeedSpec {
     Crash { seed: u64, k: u64 },
     /// grammar-built image: well-formed boxes, random and mutually inconsistent contents
     Grammar { seed: u64 },
-    /// muxer output whose chunks are stored in a random physical order (offsets rewritten)
+    /// muxer output whose chunks are stored in a random physical order (offsets rewritten);
+    /// odd seeds additionally have the movie header moved in front of the media data
     MuxShuffled { seed: u64 },
     /// many small structures of one kind (hundreds of traks, thousands of fragments / items)
     Scale { seed: u64 },
@@ -1096,6 +1097,9 @@ pub fn build(spec: &SeedSpec) -> SeedImage {
         SeedSpec::MuxShuffled { seed } => {
             let b = mux_bytes(&small_scenario(*seed));
             let sh = shuffle_chunks(&b, *seed).unwrap_or(b);
+            // odd seeds: movie header first as well - a prefix of such an image still opens,
+            // and the chunks that are missing are not the last ones of the offset table
+            let sh = if seed & 1 == 1 { relocate_moov_first(&sh).unwrap_or(sh) } else { sh };
             SeedImage { bytes: sh, init_len: None }
         }
     }
@@ -1208,6 +1212,10 @@ mod tests {
                 if sh != base {
                     shuffled_ok += 1;
                 }
+                // the form C11 cuts: shuffled *and* movie header first
+                let both = build(&SeedSpec::MuxShuffled { seed: seed | 1 }).bytes;
+                let want1 = all_samples(&mux_bytes(&small_scenario(seed | 1))).expect("opens");
+                assert_eq!(all_samples(&both).expect("shuffled+relocated opens"), want1, "shuffled+reloc seed {}", seed | 1);
             }
         }
         assert!(reloc_ok > 300);
